@@ -7,6 +7,7 @@ import (
 	"fmt"
 	"os"
 	"path/filepath"
+	"runtime/debug"
 	"sort"
 	"strconv"
 
@@ -79,6 +80,9 @@ func check(id, tier, repo, verif string, seed int) (exit int) {
 	func() {
 		defer func() {
 			if r := recover(); r != nil {
+				if os.Getenv("VERIF_TRACE") != "" {
+					fmt.Fprintf(os.Stderr, "%s\n", debug.Stack())
+				}
 				res.Break("analysis panic: %v", r)
 			}
 		}()
